@@ -186,9 +186,10 @@ class LogicalType(type):  # noqa
         args = []
         resolved = False
         for i, arg in enumerate(cls.args):
-            arg, resolved = resolve_forward_type(arg)
-            if resolved:
+            arg, arg_resolved = resolve_forward_type(arg)
+            if arg_resolved:
                 arg = cls._parse_arg(arg)
+                resolved = True
             args.append(arg)
         if resolved:
             # only adjust args if resolved
@@ -1849,11 +1850,16 @@ class Rule(metaclass=LogicalType):
     @classmethod
     def resolve_forward_refs(cls):
         # an override version of LogicalType.resolve_forward_refs
+        resolved = False
+        origin = cls.__origin__
+        if isinstance(origin, LogicalType) and origin.combinator:
+            # Optional['B'] / Union['B', ...]: the refs are args of the combined origin
+            if LogicalType.resolve_forward_refs(origin):
+                resolved = True
         if not cls.__args__:
-            return False
+            return resolved
         args = []
         arg_transformers = []
-        resolved = False
         for arg, trans in zip(cls.__args__, cls.__arg_transformers__):
             if isinstance(arg, LogicalType):
                 # including the Rule class and LogicalType with combinator
